@@ -295,8 +295,11 @@ func runAlg(r *prng, thorough bool) {
 	if thorough {
 		maxN, seeds, chooseN, lagN = 10, 3, 10, 8
 	}
+	base := r.next()
 	for _, a := range apis {
-		pr := newPRNG(r.next())
+		// the same stream for both packages: their sss.go/choose.go are copies, so equal inputs must give equal outputs
+		pr := newPRNG(base)
+		vecCounter = 0
 		chooseCases(a, chooseN)
 		lagCases(a, pr, lagN, thorough)
 		for n := 2; n <= maxN; n++ {
@@ -406,7 +409,8 @@ func dealCase(a *api, p *prng, n, t, s int, thorough bool) {
 	var subsets [][]int64
 	if n <= 6 {
 		for _, sub := range subsetsOf(n) {
-			if len(sub) >= 2 {
+			// below-threshold subsets (no property claim, model correspondence only) on the scripted seed only
+			if len(sub) >= 2 && (s == 0 || thorough || len(sub) >= t) {
 				subsets = append(subsets, sub)
 			}
 		}
